@@ -1,4 +1,12 @@
-"""Per-property configuration read by ./check (rules, assumptions, open obligations)."""
+"""Per-property configuration read by ./check: one JSON file per property in checklib/props/.
+
+Keys: level_text (MANIFEST level_claimed.text), rule (how cases are generated; what is non-trivial / distinct),
+exhaustive, assumptions (list), open (open proof obligations, full statements kept in the Props file as `..._Statement`),
+trusted (extra trusted-base items), technique, level_note, not_applicable (reason; property is then not claimed).
+"""
+import glob
+import json
+import os
 
 TRUSTED_BASE = [
     "Lean 4.33.0 kernel; axioms propext, Classical.choice, Quot.sound only (audited per theorem on every run)",
@@ -7,29 +15,6 @@ TRUSTED_BASE = [
     "hand-written Lean model is NOT trusted: it is what the correspondence run checks against /repo",
 ]
 
-PROPS = {
-    "C02": {
-        "level_text": "Lean theorems: validate <-> IsChain, produces/superset/ascending characterisations, Ops(k) = the "
-                      "lexicographic list of index pairs on both code paths, evaluate(program c) = c; for all integer "
-                      "sequences of any length. Tied to chain.go/program.go by exact-output correspondence.",
-        "rule": "all integer sequences over {-1,0,1,2,3,4,5,6,8} up to length 5 (quick) / 6 (thorough), every valid "
-                "chain in every element order up to length 6/8, random long big-integer chains with injected faults; "
-                "non-trivial = length >= 3 and (invalid for a reason other than the first element, or some position "
-                "has >= 2 ops, or the quadratic path is taken); distinct = distinct case line",
-        "exhaustive": True,
-        "assumptions": ["math/big Add/Cmp behave as integer + and comparison"],
-    },
-    "C09": {
-        "level_text": "Lean theorems per method (fixed, sliding, run-length, hybrid), for every x, K >= 1, T: terms sum to x, "
-                      "after sorting every term lies strictly below the exponent of every later term (strictly increasing "
-                      "exponents + non-overlap), d > 0, per-method shape, dictionary = strictly sorted distinct d; "
-                      "decomposition of x >= 1 non-empty. Tied to alg/dict/dict.go by exact-output correspondence.",
-        "rule": "x < 2^10 (quick) / 2^13 (thorough) x K in 1..8 x T in 0..9 x {fixed, sliding, run-length} exhaustively, hybrid "
-                "for x < 2^9 / 2^12; 300 / 3000 structured values up to 1024 bits (2^k, 2^k-1, 2^k-c, Solinas-like, runs of "
-                "length exactly K/K+1/T/T+1, sparse, dense, runs with holes) with K in 1..130, T in 0..130, all four methods; "
-                "non-trivial = at least two terms; distinct = distinct case line",
-        "exhaustive": True,
-        "assumptions": ["math/big Bit/BitLen/Lsh/Rsh/And/Xor/Sub behave as on naturals",
-                        "sort.Slice returns a sorted permutation (exponents are distinct, so the result is unique)"],
-    },
-}
+PROPS = {}
+for _p in sorted(glob.glob(os.path.join(os.path.dirname(os.path.abspath(__file__)), "props", "*.json"))):
+    PROPS[os.path.splitext(os.path.basename(_p))[0]] = json.load(open(_p))
